@@ -18,10 +18,10 @@
 (* row write-back, unit_systems.add_symbols: Unit(attribute.expr, registry)  *)
 (* for every unit_symbols attribute, then Unit(key, registry) for every      *)
 (* other table key).  Property side: the reference view `user` (what the     *)
-(* caller put in) and RefDen, the reading of a probe under it.               *)
+(* caller put in) and RefDens, the readings of a probe under it.             *)
 EXTENDS Integers, Sequences, FiniteSets, TLC, Json
 
-EditKeys == {"pc", "ft", "foo", "kfoo"}
+EditKeys == {"pc", "ft", "foo", "kfoo", "quux", "parsec", "kiloparsec", "kpc", "kft"}   \* keys a call may put in the table
 DerivedKeys == <<"kpc", "Mpc", "kft", "kfoo", "Mfoo">>     \* keys _lookup_unit_symbol may write back
 DerivedSet == {DerivedKeys[i] : i \in DOMAIN DerivedKeys}
 AllKeys == EditKeys \cup DerivedSet
@@ -39,7 +39,9 @@ ProbeSeq == <<
   [s |-> "kft",        e |-> 3, b |-> "ft",  canon |-> "kft",  us |-> FALSE],
   [s |-> "foo",        e |-> 0, b |-> "foo", canon |-> "foo",  us |-> FALSE],
   [s |-> "kfoo",       e |-> 3, b |-> "foo", canon |-> "kfoo", us |-> FALSE],
-  [s |-> "Mfoo",       e |-> 6, b |-> "foo", canon |-> "Mfoo", us |-> FALSE]>>
+  [s |-> "Mfoo",       e |-> 6, b |-> "foo", canon |-> "Mfoo", us |-> FALSE],
+  [s |-> "quux",       e |-> 0, b |-> "quux", canon |-> "quux", us |-> FALSE]>>
+ProbeNo(s) == CHOOSE p \in DOMAIN ProbeSeq : ProbeSeq[p].s = s
 PIdx == DOMAIN ProbeSeq
 \* derived key -> its split <<e, base>> (first character is the prefix)
 SplitOf(c) == CASE c = "kpc" -> <<3, "pc">> [] c = "Mpc" -> <<6, "pc">> [] c = "kft" -> <<3, "ft">>
@@ -49,17 +51,21 @@ Absent == [m |-> "", e |-> 0, pfx |-> FALSE]
 Row(m, e, pfx) == [m |-> m, e |-> e, pfx |-> pfx]
 Present(r) == r.m # ""
 Table0 == [k \in AllKeys |-> IF k = "pc" THEN Row("Dpc", 0, TRUE) ELSE IF k = "ft" THEN Row("Dft", 0, FALSE) ELSE Absent]
+\* the default registry is warm: importing unyt.unit_symbols resolved every documented prefixed name once
+TableWarm == [Table0 EXCEPT !["kpc"] = Row("Dpc", 3, FALSE), !["Mpc"] = Row("Dpc", 6, FALSE)]
 RaiseO == [k |-> "raise", den |-> <<>>]
 UnitO(r) == [k |-> "unit", den |-> <<r.m, r.e>>]
 OkO == [k |-> "ok", den |-> <<>>]
 
-VARIABLES user,   \* reference view: key -> row | Absent (what the caller put in; defaults included)
+VARIABLES kind,   \* "custom" (a fresh UnitRegistry()) or "default" (unyt's default registry: modify/remove refused, warm)
+          user,   \* reference view: key -> row | Absent (what the caller put in; defaults included)
           lut,    \* the table as the code keeps it (incl. derived rows)
           memo,   \* set of [s, o]: registry._unit_object_cache restricted to the probe strings
           hist,   \* the calls made so far
           last    \* result of the last call
-evars == <<user, lut, memo, hist, last>>
-EditInit == user = Table0 /\ lut = Table0 /\ memo = {} /\ hist = <<>> /\ last = OkO
+evars == <<kind, user, lut, memo, hist, last>>
+EditInitK(kd) == kind = kd /\ user = Table0 /\ lut = (IF kd = "default" THEN TableWarm ELSE Table0) /\ memo = {} /\ hist = <<>> /\ last = OkO
+EditInit == \E kd \in {"custom", "default"} : EditInitK(kd)
 
 \* ----------------------------------------------------------- transition side
 \* _lookup_unit_symbol(c, lut): <<outcome, lut after>>
@@ -69,20 +75,24 @@ LookupE(c, L) ==
        IF sp[2] # "" /\ Present(L[sp[2]]) /\ L[sp[2]].pfx
        THEN LET r == Row(L[sp[2]].m, L[sp[2]].e + sp[1], FALSE) IN <<UnitO(r), [L EXCEPT ![c] = r]>>
        ELSE <<RaiseO, L>>
-Add(k, m, pfx) == /\ lut' = [lut EXCEPT ![k] = Row(m, 0, pfx)] /\ user' = [user EXCEPT ![k] = Row(m, 0, pfx)]
+Add(k, m, pfx) == /\ kind' = kind /\ lut' = [lut EXCEPT ![k] = Row(m, 0, pfx)] /\ user' = [user EXCEPT ![k] = Row(m, 0, pfx)]
                   /\ memo' = {} /\ last' = OkO
-Remove(k) == IF Present(lut[k])
-             THEN /\ lut' = [lut EXCEPT ![k] = Absent] /\ user' = [user EXCEPT ![k] = Absent] /\ memo' = {} /\ last' = OkO
-             ELSE /\ UNCHANGED <<lut, user, memo>> /\ last' = RaiseO
-Modify(k, m) == IF Present(lut[k])
-                THEN /\ lut' = [lut EXCEPT ![k].m = m, ![k].e = 0] /\ memo' = {} /\ last' = OkO
-                     /\ user' = IF Present(user[k]) THEN [user EXCEPT ![k].m = m] ELSE user
+Remove(k) == /\ kind' = kind
+             /\ IF Present(lut[k])
+                THEN /\ lut' = [lut EXCEPT ![k] = Absent] /\ user' = [user EXCEPT ![k] = Absent] /\ memo' = {} /\ last' = OkO
                 ELSE /\ UNCHANGED <<lut, user, memo>> /\ last' = RaiseO
+Modify(k, m) == /\ kind' = kind
+                /\ IF Present(lut[k])
+                   THEN /\ lut' = [lut EXCEPT ![k].m = m, ![k].e = 0] /\ memo' = {} /\ last' = OkO
+                        /\ user' = IF Present(user[k]) THEN [user EXCEPT ![k].m = m] ELSE user
+                   ELSE /\ UNCHANGED <<lut, user, memo>> /\ last' = RaiseO
 \* Unit(ProbeSeq[p].s, registry=reg): memo first; on success the string is memoised
 PeekStr(p, L, M) == LET s == ProbeSeq[p].s IN
                     IF \E x \in M : x.s = s THEN <<(CHOOSE x \in M : x.s = s).o, L>> ELSE LookupE(ProbeSeq[p].canon, L)
-Construct(p) == LET r == PeekStr(p, lut, memo) IN
-                /\ lut' = r[2] /\ last' = r[1] /\ user' = user
+\* (Unit(s) without registry= does not consult the memo: the default registry is always used that way here)
+MemoRead == IF kind = "default" THEN {} ELSE memo
+Construct(p) == LET r == PeekStr(p, lut, MemoRead) IN
+                /\ kind' = kind /\ lut' = r[2] /\ last' = r[1] /\ user' = user
                 /\ memo' = IF r[1].k = "unit" THEN memo \cup {[s |-> ProbeSeq[p].s, o |-> r[1]]} ELSE memo
 \* add_symbols(ns, reg): the unit_symbols attributes in module order (ft's names come before pc's; a name that
 \* cannot be resolved aborts the whole call - before any of the modelled derived rows is written), then the other keys
@@ -99,25 +109,54 @@ NsOf(L) == LET w == NsWalk(1, L, [p \in PIdx |-> NsAbsent]) IN
                  ns |-> [p \in PIdx |-> IF ProbeSeq[p].us THEN w[3][p]
                                         ELSE IF ProbeSeq[p].s \in AllKeys /\ Present(w[2][ProbeSeq[p].s]) THEN UnitO(w[2][ProbeSeq[p].s]) ELSE NsAbsent]]
 AddSymbols == LET r == NsOf(lut) IN
-              /\ lut' = r.lut /\ user' = user
+              /\ kind' = kind /\ lut' = r.lut /\ user' = user
               /\ last' = [k |-> IF r.ok THEN "ns" ELSE "raise", den |-> <<>>, ns |-> r.ns]
               /\ memo' = IF r.ok THEN memo \cup {[s |-> ProbeSeq[p].s, o |-> r.ns[p]] : p \in {q \in PIdx : ~ProbeSeq[q].us /\ r.ns[q].k = "unit"
                                                                                                /\ ~(\E x \in memo : x.s = ProbeSeq[q].s)}}
                          ELSE memo
 
+\* unit_object.define_unit(sym, (m, "m"), prefixable=pfx, registry=reg): refused when `sym in registry` - a table key, or a
+\* prefix + prefixable key (the test resolves the RAW symbol, no alias table, and writes the derived row back as a side
+\* effect); otherwise registry.add (memo cleared) and, on the default registry, Unit(sym) is built and bound to unyt.<sym>
+Define(sym, m, pfx) ==
+  /\ kind' = kind
+  /\ IF Present(lut[sym])
+     THEN /\ UNCHANGED <<lut, user, memo>> /\ last' = RaiseO
+     ELSE IF LookupE(sym, lut)[1].k = "unit"
+          THEN /\ lut' = LookupE(sym, lut)[2] /\ UNCHANGED <<user, memo>> /\ last' = RaiseO
+          ELSE LET L1 == [lut EXCEPT ![sym] = Row(m, 0, pfx)]
+                   u == PeekStr(ProbeNo(sym), L1, {}) IN
+               /\ user' = [user EXCEPT ![sym] = Row(m, 0, pfx)] /\ last' = OkO
+               /\ lut' = (IF kind = "default" THEN u[2] ELSE L1)
+               /\ memo' = (IF kind = "default" /\ u[1].k = "unit" THEN {[s |-> sym, o |-> u[1]]} ELSE {})
+
 \* ------------------------------------------------------------ property side
-\* the reading of probe p under the caller's view U: the table symbol wins; otherwise prefix x a prefixable unit
-RefDen(U, p) == LET q == ProbeSeq[p] IN
-                IF q.canon \in EditKeys /\ q.e # 0 /\ Present(U[q.canon]) THEN UnitO(U[q.canon])     \* kfoo as a user symbol
-                ELSE IF ~Present(U[q.b]) THEN RaiseO
-                ELSE IF q.e = 0 THEN UnitO(U[q.b])
-                ELSE IF U[q.b].pfx THEN UnitO(Row(U[q.b].m, q.e, FALSE)) ELSE RaiseO
-\* an observed resolution o = [ok, den (tuple of <<mantissa, exponent>>)] agrees with the reading
-Agrees(o, want) == IF want.k = "raise" THEN ~o.ok ELSE o.ok /\ (\E x \in DOMAIN o.den : o.den[x] = want.den)
+\* the readings of probe p under the caller's view U (a set of acceptable outcomes):
+\*  - a string that is itself a table key and is looked up as such: the table symbol wins (kpc, kft, kfoo, quux ...);
+\*  - otherwise prefix x a prefixable unit / the unit its spelling names / rejected;
+\*  - NOT DECIDED by the statement (both outcomes acceptable, the routes must still agree): a key the caller put in the table
+\*    under a name the tokenizer maps elsewhere ("parsec" -> pc, "kiloparsec" -> kpc), or an alias whose canonical
+\*    symbol the caller redefined as a table symbol ("kiloparsec" when kpc is a user key)
+BaseReading(U, q) == IF ~Present(U[q.b]) THEN RaiseO
+                     ELSE IF q.e = 0 THEN UnitO(U[q.b])
+                     ELSE IF U[q.b].pfx THEN UnitO(Row(U[q.b].m, q.e, FALSE)) ELSE RaiseO
+RefDens(U, p) == LET q == ProbeSeq[p] IN
+                 IF q.s = q.canon /\ q.s \in EditKeys /\ Present(U[q.s]) THEN {UnitO(U[q.s])}
+                 ELSE {BaseReading(U, q)}
+                      \cup (IF q.s # q.canon /\ q.s \in EditKeys /\ Present(U[q.s]) THEN {UnitO(U[q.s])} ELSE {})
+                      \cup (IF q.s # q.canon /\ q.canon # q.b /\ q.canon \in EditKeys /\ Present(U[q.canon]) THEN {UnitO(U[q.canon])} ELSE {})
+\* an observed resolution o = [ok, den (tuple of <<mantissa, exponent>>)] agrees with one of the readings
+Agrees1(o, want) == IF want.k = "raise" THEN ~o.ok ELSE o.ok /\ (\E x \in DOMAIN o.den : o.den[x] = want.den)
+Agrees(o, W) == \E want \in W : Agrees1(o, want)
 \* EditStr: the string denotes its reading under the current contents (accepted iff it has one)
-C14_EditStr(U, p, o) == Agrees(o, RefDen(U, p))
-\* EditNs: a namespace entry denotes the reading of its name under the contents at the time add_symbols ran
-C14_EditNs(U, p, a) == a.present => Agrees(a, RefDen(U, p))
+C14_EditStr(U, p, o) == Agrees(o, RefDens(U, p))
+\* EditNs: a namespace entry denotes the reading of its name under the contents at the time the namespace was filled
+C14_EditNs(U, p, a) == a.present => Agrees(a, RefDens(U, p))
+\* DefineGuard: no string gets a second reading - define_unit must refuse a symbol that already reads as a unit of the
+\* registry: a table key, or prefix + prefixable key, whether or not the prefixed spelling was resolved before
+HasSymbolReading(U, sym) == \/ (sym \in EditKeys /\ Present(U[sym]))
+                            \/ (SplitOf(sym)[2] # "" /\ Present(U[SplitOf(sym)[2]]) /\ U[SplitOf(sym)[2]].pfx)
+C14_DefineGuard(U, sym, accepted) == HasSymbolReading(U, sym) => ~accepted
 \* which memo layer explains a stale answer: a derived prefixed row written before the base symbol was edited
 \* (the defect C12 records: derived rows survive add/modify/remove of their base symbol), or none
 Layer(U, p, rowsBefore) == LET c == ProbeSeq[p].canon IN
